@@ -38,10 +38,10 @@ PROPS = {
     ),
     "C12": dict(
         level="proof",
-        technique="Verus contracts on the extracted src/chunk/size_config.rs + lemma fresh_chunk_fits over the size and bump contracts; Kani full-domain twins",
+        technique="Verus contracts on the extracted src/chunk/size_config.rs and src/chunk/size.rs (the typed layer: config, from_hint, from_capacity, calc_size, for_capacity, align_allocation_size, layout; every A and S) + lemma fresh_chunk_fits over the size and bump contracts; Kani full-domain twins",
         manifest_level="proof",
         claim="All size computations of src/chunk/size_config.rs carry contracts proved by Verus for every header layout (align>=16,size>=32), hint, layout and direction: multiples of 16 (and of the header alignment downwards), large enough for header+request, None exactly on mathematical overflow (never wraps); lemma fresh_chunk_fits composes them with the C11 contracts: whatever is granted, the layout that caused a chunk is allocatable in it; grow_doubles gives >= 2*prev-16. Kani re-checks each function on the full domain and the whole chain on a stated bounded domain.",
-        note="Trusted: as C11 plus assume_specification for usize::checked_next_power_of_two; cfg_valid (header align>=16, size>=32, multiple of align; overhead layout (16,8)) is what repr(C,align(16)) ChunkHeader<A> yields - checked per instantiation by Kani under C10. The end-to-end Kani chain harness is bounded (bound in evidence) and is not what the claim rests on.",
+        note="Trusted: as C11 plus assume_specification for usize::checked_next_power_of_two; cfg_valid (header align>=16, size>=32, multiple of align; overhead layout (16,8)) is proved for config::<A,S>() from two admitted layout axioms about repr(C,align(16)) ChunkHeader<A> and [usize;2] plus assume_specification of Layout::new / Layout::from_size_align (verus/modheads/chunk_size.rs) - the same facts are checked per instantiation by Kani under C10. The end-to-end Kani chain harness is bounded (bound in evidence) and is not what the claim rests on.",
         not_covered=["pointer glue of NonDummyChunk::new/append_for (header placement) is checked by Kani harnesses under C10/C05, per instantiation", "the growth rule (a later chunk >= twice the previous less 16) for chunks in the page-multiple regime (>= 4 KiB): NonDummyChunk::grow_size is pointer glue outside the Verus kernel and page-sized chunks exhaust CBMC; checked for the power-of-two regime only (seed C12b)"],
     ),
     "C01": dict(
